@@ -26,6 +26,8 @@ where
     let path = path.as_ref().to_path_buf();
     let format = Format::from_path(&path)?;
     let source = read_config(&path)?;
+    #[cfg(feature = "verif_hooks")]
+    crate::verif_hooks::critical_section_point("init_file:between-read-and-stat");
     // An Err here could come because mtime isn't available, so don't bail
     let modified = fs::metadata(&path).and_then(|m| m.modified()).ok();
     let config = format.parse(&source)?;
@@ -252,6 +254,7 @@ impl VerifReloader {
         let path = path.to_path_buf();
         let format = Format::from_path(&path)?;
         let source = read_config(&path)?;
+        crate::verif_hooks::critical_section_point("init_file:between-read-and-stat");
         let modified = fs::metadata(&path).and_then(|m| m.modified()).ok();
         let config = format.parse(&source)?;
         let refresh_rate = config.refresh_rate();
